@@ -388,6 +388,10 @@ fn emit_stack_cleanup_code<E: quiver_core::effects::Effect>(
 pub fn compile_tuple_with_spread<E: quiver_core::effects::Effect>(
     compiler: &mut Compiler<'_, E>,
     tuple_name: Option<String>,
+    // `~[..., y]` / `a[..., y]`: the result takes the name of the first spread's source. When that
+    // source's static type is a union of tuples the name differs per variant and is only known at
+    // run time, so each variant's tuple is registered under its own source name.
+    inherit_name: bool,
     fields: Vec<ast::TupleField>,
     ripple_context: Option<&RippleContext>,
 ) -> Result<(usize, Provenance), Error> {
@@ -425,6 +429,7 @@ pub fn compile_tuple_with_spread<E: quiver_core::effects::Effect>(
             &compiled_values,
             stack_size,
             tuple_name.clone(),
+            inherit_name,
         )?
     };
 
@@ -473,9 +478,24 @@ fn emit_multi_variant_tuples<E: quiver_core::effects::Effect>(
     compiled_values: &[CompiledValue],
     stack_size: usize,
     tuple_name: Option<String>,
+    inherit_name: bool,
 ) -> Result<usize, Error> {
     let mut end_jumps = Vec::new();
     let mut variant_type_ids = Vec::new();
+
+    // The name of one variant's result: with an inherited name, the name of the tuple the first
+    // spread contributes in THIS variant; otherwise the literal's own name.
+    let variant_name = |compiler: &Compiler<'_, E>, variant: &VariantInfo| -> Option<String> {
+        if inherit_name {
+            variant
+                .spread_type_ids
+                .first()
+                .and_then(|id| compiler.program.lookup_tuple(*id))
+                .and_then(|t| t.name.clone())
+        } else {
+            tuple_name.clone()
+        }
+    };
 
     for (variant_idx, variant) in variants.iter().enumerate() {
         let is_last = variant_idx == variants.len() - 1;
@@ -512,9 +532,10 @@ fn emit_multi_variant_tuples<E: quiver_core::effects::Effect>(
             // All checks passed - construct this variant
             emit_field_extraction_code(compiler, &field_sources, compiled_values, stack_size)?;
 
+            let name = variant_name(compiler, variant);
             let tuple_id = compiler
                 .program
-                .register_tuple(tuple_name.clone(), variant.fields.clone());
+                .register_tuple(name, variant.fields.clone());
             compiler
                 .codegen
                 .add_instruction(Instruction::Tuple(tuple_id));
@@ -530,9 +551,10 @@ fn emit_multi_variant_tuples<E: quiver_core::effects::Effect>(
             // Last variant - no need to check, just construct it
             emit_field_extraction_code(compiler, &field_sources, compiled_values, stack_size)?;
 
+            let name = variant_name(compiler, variant);
             let tuple_id = compiler
                 .program
-                .register_tuple(tuple_name.clone(), variant.fields.clone());
+                .register_tuple(name, variant.fields.clone());
             compiler
                 .codegen
                 .add_instruction(Instruction::Tuple(tuple_id));
